@@ -886,6 +886,11 @@ def check_maxseqs(ctx, rng, n, wide_opts=False):
     wide = [Fraction(k) for k in range(0, 40)]
     for t in range(n):
         tcr = rng.random() < 0.35
+        # the first wide cases of every run are fixed combinations (pandas objects whose row labels repeat / are shifted / are strings, with
+        # maxseqs below N): a sub-sample taken by LABEL instead of by position shows there and nowhere else (seeded change C05-r6m1)
+        forced = t if (wide_opts and t < 4) else None
+        if forced is not None:
+            tcr = forced % 2 == 1
         N = rng.randint(3, 7)
         if tcr:
             xs = [list(p) for p in zip(rand_strings(rng, N, 'AC', 4, dup=0.1), rand_strings(rng, N, 'AC', 4, dup=0.1))]
@@ -898,6 +903,8 @@ def check_maxseqs(ctx, rng, n, wide_opts=False):
             case['ys'] = ([list(p) for p in zip(rand_strings(rng, M, 'AC', 4), rand_strings(rng, M, 'AC', 4))] if tcr
                           else rand_strings(rng, M, 'ACD', 5))
         m = rng.randint(1 if wide_opts else 2, N + 2)
+        if forced is not None:
+            m = rng.randint(1, N - 1)
         narrow = rng.random() < 0.4
         edges = [Fraction(k) for k in range(0, 4)] if narrow else wide
         case.update(bins=[str(e) for e in edges], bins_container='list', normalize=False, pseudocount=None, maxseqs=m)
@@ -932,8 +939,20 @@ def check_maxseqs(ctx, rng, n, wide_opts=False):
                     case['metric'] = [rng.choice(['wlev', 'custom']), w[0], w[1] if cross else w[0], w[2]]
                 elif r < 0.65:
                     case['metric'] = ['lev']
-            if not cross and rng.random() < 0.2:
+            if not cross and rng.random() < 0.2 and forced is None:
                 case['ys'], case['same'] = [x if isinstance(x, str) else list(x) for x in case['xs']], 'object'
+            if forced is not None:
+                labels = ([rng.randrange(2) for _ in range(N)] if forced < 2 else
+                          list(range(1, N + 1)) if forced == 2 else ['r%d' % (i % 2) for i in range(N)])
+                case['index_xs'] = labels
+                if tcr:
+                    case['kind'] = 'tcr'
+                    case.pop('tuple_parts', None)
+                    if case['cols'] not in ('A', 'B', 'AB'):
+                        case['cols'] = 'AB'
+                else:
+                    case['container'] = 'series'
+                ctx.count('maxseqs:forced pandas labels %d' % forced)
         seeds = [rng.randrange(2 ** 31) for _ in range(6)]
         nallowed, why = eval_maxseqs(ctx, case, seeds)
         ctx.count('maxseqs<N' if m < N else 'maxseqs>=N')
